@@ -248,6 +248,9 @@ def build(S):
 
         C18_dct.add(S)  # the DCT interpolant's second derivatives feed the curvature
         C06.add_ddy(S)  # DDY / DDX (C06) are what the x-y form differentiates with
+        from . import C03_circular
+
+        C03_circular.add(S)  # analytic family: the second derivatives of psi that feed dB/dR, dB/dZ are D D of ITS psi, sheared q included
 
 
 def post(S):
